@@ -101,6 +101,7 @@ func (n *Node) setNext(level int, ptr *Node, deleted bool) {
 }
 
 func (n *Node) getNext(level int) (*Node, bool) {
+	verifYield(1) // verif: yield point (getNext)
 	nodeRefAddr := uintptr(unsafe.Pointer(n)) + nodeHdrSize + nodeRefSize*uintptr(level)
 	wordAddr := (*uint64)(unsafe.Pointer(nodeRefAddr + uintptr(7)))
 
@@ -119,6 +120,7 @@ func (n *Node) getNext(level int) (*Node, bool) {
 // least-significant to 0xff (denotes deleted). Same applies for loading delete
 // flag and the address atomically.
 func (n *Node) dcasNext(level int, prevPtr, newPtr *Node, prevIsdeleted, newIsdeleted bool) bool {
+	verifYield(2) // verif: yield point (dcasNext)
 	nodeRefAddr := uintptr(unsafe.Pointer(n)) + nodeHdrSize + nodeRefSize*uintptr(level)
 	wordAddr := (*uint64)(unsafe.Pointer(nodeRefAddr + uintptr(7)))
 	prevVal := uint64(uintptr(unsafe.Pointer(prevPtr)) << 8)
